@@ -7,6 +7,7 @@ from pyopenapi_gen import IROperation
 from ....context.render_context import RenderContext
 from ....core.utils import Formatter, NameSanitizer
 from ....core.writers.code_writer import CodeWriter
+from ....core.writers.documentation_writer import escape_docstring_text
 from ....types.strategies import ResponseStrategyResolver
 from ..processors.import_analyzer import EndpointImportAnalyzer
 from ..processors.parameter_processor import EndpointParameterProcessor
@@ -142,11 +143,11 @@ class EndpointMethodGenerator:
         ordered_params, primary_content_type, _ = self.parameter_processor.process_parameters(op, context)
         writer.indent()
         writer.write_line('"""')
-        writer.write_line(f"{op.summary or op.operation_id}")
+        writer.write_line(escape_docstring_text(f"{op.summary or op.operation_id}"))
         writer.write_line("")
         writer.write_line("Supports multiple content types:")
         for content_type in op.request_body.content.keys():
-            writer.write_line(f"- {content_type}")
+            writer.write_line(escape_docstring_text(f"- {content_type}"))
         writer.write_line('"""')
 
         # Generate URL construction with sanitized path variables
